@@ -362,8 +362,9 @@ def check_no_panic(ctx, rep, tier):
         for nm in names:
             stage_opaque.add(find_method(ctx, adt, nm)['path'])
     ed_methods = [f for f in handwritten if (f.get('impl_self') or {}).get('path') == 'EventDecoder' and not f.get('impl_trait')]
-    from .rules_event import ed_extra_state_guard
-    ed_extra_state_guard(ctx)
+    from .rules_event import ed_extra_state_guard, SOFT_S
+    from .mirtab import soft_budget
+    ed_risky = ed_extra_state_guard(ctx)
     def run_api(f, label, **kw):
         # operations the statement lists must be decidable; an addition to the API that is not is noted, not judged
         try:
@@ -376,7 +377,11 @@ def check_no_panic(ctx, rep, tier):
     for f in ed_methods:
         if f['vis'] != 'pub':
             continue    # private helpers are analysed where the public operations inline them (with the arguments they really get)
-        run_api(f, 'EventDecoder::' + f['name'])
+        if ed_risky:
+            with soft_budget(SOFT_S, ed_risky % SOFT_S):
+                run_api(f, 'EventDecoder::' + f['name'])
+        else:
+            run_api(f, 'EventDecoder::' + f['name'])
     stage_opaque |= {f['path'] for f in ed_methods}
     kb_methods = [f for f in handwritten if (f.get('impl_self') or {}).get('path') == 'Keyboard' and not f.get('impl_trait')]
     for f in kb_methods:
